@@ -36,7 +36,11 @@ fn same_day_disposal_quantity(
 fn apply_split_ratio_effect(cumulative_ratio_effect: &mut Decimal, tx: &GbpTransaction) {
     match &tx.operation {
         Operation::Split { ratio } => {
-            *cumulative_ratio_effect *= *ratio;
+            // A zero ratio would make the cumulative ratio zero and the later
+            // `available / cumulative_ratio_effect` divide by zero.
+            if *ratio != Decimal::ZERO {
+                *cumulative_ratio_effect *= *ratio;
+            }
         }
         Operation::Unsplit { ratio } => {
             if *ratio != Decimal::ZERO {
